@@ -266,6 +266,29 @@ def act_old_format_metadata(data="data"):
     return run
 
 
+def act_age_metadata(days=3, data="data"):
+    """Makes every blob look `days` days old (the timestamp recorded in its metadata is moved back)."""
+    def run(root):
+        import json
+
+        i, _ = dirs(root, data)
+        n = 0
+        for fn in sorted(os.listdir(os.path.join(i, "blobs"))):
+            if fn.endswith(".meta"):
+                mp = os.path.join(i, "blobs", fn)
+                with open(mp) as f:
+                    meta = json.load(f)
+                if isinstance(meta.get("timestamp_millis"), int):
+                    meta["timestamp_millis"] -= days * 24 * 3600 * 1000
+                    with open(mp, "w") as f:
+                        json.dump(meta, f)
+                    n += 1
+        return "aged-metadata:%d" % n
+
+    run.__name__ = "age-metadata-%dd" % days
+    return run
+
+
 def act_empty_internal(data="data"):
     """Empties the blob directory (a cache clean-up, an internal directory replaced by a new one): the links of the data
     directory stay behind and dangle."""
